@@ -81,6 +81,46 @@ func VH_slice_LIS() {
 	}
 }
 
+// VH_slice_LISLong: a long strictly increasing run followed by a few arbitrary
+// elements: the answer is long enough to leave any small-size fast path of the search.
+func VH_slice_LISLong() {
+	n, extra := vCase("n"), vCase("extra")
+	kind := vCase("cmp")
+	strict := vCase("strict") == 1
+	vs := vMkInts(n + extra)
+	for i := 1; i < n; i++ {
+		vAssume(vs[i-1] < vs[i])
+	}
+	c := vCmpKind(kind)
+	if kind == 1 {
+		// reversed comparison: make the run increasing under it
+		for i, j := 0, n-1; i < j; i, j = i+1, j-1 {
+			vs[i], vs[j] = vs[j], vs[i]
+		}
+	}
+	v0 := append([]int{}, vs...)
+	var got []int
+	if strict {
+		got = LISFunc(vs, c)
+	} else {
+		got = LNDSFunc(vs, c)
+	}
+	vCover("longest-long")
+	for i := 1; i < len(got); i++ {
+		r := c(got[i], got[i-1])
+		if strict {
+			vAssert(r > 0, "LIS (long): strictly increasing under the comparison")
+		} else {
+			vAssert(r >= 0, "LNDS (long): non-decreasing under the comparison")
+		}
+	}
+	vAssert(vIsSubseq(got, vs), "result (long) is a subsequence of the input")
+	vAssert(len(got) == vRefLongest(vs, c, strict), "result (long) has maximum possible length")
+	for i := range vs {
+		vAssert(vs[i] == v0[i], "input (long) not modified")
+	}
+}
+
 func VT_slice_lis() {
 	in := []int{1, 3, 6, 7, 9, 4, 10, 5, 6, 6, 2}
 	vOut("lis", LIS(in))
